@@ -55,8 +55,14 @@ def cases(ctx):
         if no_args:
             for r in runs:
                 r["override"] = None
+        consts = rng.choice([{}, {"kc": 3}, {"kc": "zz", "k2": 1.5}])
+        if consts:
+            # some runs name another value for a constant at the call (sample_combos / sow_samples constants=)
+            for k, r in enumerate(runs):
+                if rng.random() < 0.35:
+                    r["run_constants"] = {"kc": rng.choice([5, 7]) if consts["kc"] == 3 else rng.choice(["yy", "xx"])}
         yield {"runs": runs, "no_args": no_args, "engine": rng.choice(["pickle", "pickle", "csv"]), "kind": rng.choice(["float", "multi:s,s", "int", "str"]),
-               "constants": rng.choice([{}, {"kc": 3}, {"kc": "zz", "k2": 1.5}]), "mem_only": rng.random() < 0.1,
+               "constants": consts, "mem_only": rng.random() < 0.1,
                "default_kind": rng.choice(["lists", "mixed"]), "x_dates": rng.random() < 0.3,
                # table names whose extension asks pandas for compression
                "compress": rng.choice(["", "", "", ".gz", ".xz", ".bz2"])}
@@ -93,6 +99,7 @@ def run_case(ctx, case):
     if case.get("no_args"):
         constants = dict(constants, kfix=2)
         ctx.count("samplers_without_sampled_arguments")
+    base_constants = dict(constants)        # what the Sampler's runner holds; a run may name other values at the call
     POOLS = {"a": [1, 2, 3, 5, 8], "b": ["u", "v", "w"], "x": [0.25, 1.5, -2.75, 10.125]}
     if case.get("x_dates") and engine == "pickle":
         # choices that are nanosecond-resolution dates (a time axis taken from a dataset): rows must hold those dates
@@ -104,7 +111,7 @@ def run_case(ctx, case):
     sig = {"api": "sampler", "engine": engine, "kind": kind.split(":")[0]}
 
     def new_sampler(rng):
-        runner = xyzpy.Runner(fn, var_names, constants=constants or None)
+        runner = xyzpy.Runner(fn, var_names, constants=dict(base_constants) or None)
         dc = {}
         for a in args:
             dc[a] = list(POOLS[a]) if case["default_kind"] == "lists" or a != "x" else LoggingGen(rng, POOLS[a], draws.setdefault(a, []))
@@ -209,6 +216,12 @@ def run_case(ctx, case):
                 nviol += 1
             if nviol:
                 break
+        rck = {}
+        constants = dict(base_constants)
+        if run.get("run_constants"):
+            rck = {"constants": dict(run["run_constants"])}
+            constants.update(run["run_constants"])          # what this run's rows were computed with, and must record
+            ctx.count("runs_naming_a_constant_at_the_call")
         try:
             with quiet():
                 np.random.seed(run["rseed"] % (2 ** 32))
@@ -216,7 +229,7 @@ def run_case(ctx, case):
                     kw = {}
                     if run["shuffle"]:
                         kw["shuffle"] = run["shuffle"]
-                    last = s.sample_combos(n, override, verbosity=0, **kw)
+                    last = s.sample_combos(n, override, verbosity=0, **kw, **rck)
                 else:
                     ckw = {}
                     if run["batchsize"]:
@@ -224,7 +237,7 @@ def run_case(ctx, case):
                     crop = s.Crop(name="smp", parent_dir=tmp, **ckw)
                     if run["shuffle"]:
                         crop.shuffle = run["shuffle"]
-                    crop.sow_samples(n, override, verbosity=0)
+                    crop.sow_samples(n, override, verbosity=0, **rck)
                     if run["reload_crop"]:
                         xyzpy.Crop(name="smp", parent_dir=tmp).grow_missing()
                     else:
